@@ -334,6 +334,14 @@ func c19Payload(e *Env) func(*rapid.T) {
 			viol(key, fmt.Sprintf("changing %q of a %s payload does not change its hash", what, d.T))
 		}
 		cl["mutation_"+what] = 1
+		// ... also when the field is changed in place after the hash was taken once (the library sets the
+		// validator index of a payload it has built, the application may have hashed it before)
+		di := d
+		di.Idx ^= 1
+		p2.SetValidatorIndex(di.Idx)
+		if p2.Hash() != di.build().Hash() {
+			viol("hash-stale-after-set-index", fmt.Sprintf("a %s payload hashed once keeps that hash after SetValidatorIndex: the hash is not a function of the content", d.T))
+		}
 		// round trip
 		enc := p1.(*consensus.Payload).MarshalUnsigned()
 		dec := new(consensus.Payload)
@@ -358,6 +366,15 @@ func c19Payload(e *Env) func(*rapid.T) {
 				viol("roundtrip-hash-differs", "decode(encode(p)) has another hash than p")
 			}
 			cl["roundtrip_ok"] = 1
+			// decoding into a payload object that was used (and hashed) before gives the decoded content's hash
+			mp := md.build()
+			again := new(consensus.Payload)
+			if again.UnmarshalUnsigned(enc) == nil {
+				_ = again.Hash()
+				if again.UnmarshalUnsigned(mp.(*consensus.Payload).MarshalUnsigned()) == nil && again.Hash() != mp.Hash() {
+					viol("hash-stale-after-decode", "a payload object decoded a second time keeps the hash of the first content")
+				}
+			}
 		}
 		// a proposal rebuilt from a recovery message has the original's hash; rebuilt responses name it
 		if d.T == dbft.RecoveryMessageType {
